@@ -73,6 +73,13 @@ static int scenarioA(void)
             S.alertDesc);
         return 1;
     }
+    if (!exchange_check(&C, &S, "demo2A"))
+    {
+        printf("VIOLATION: scenario A: no data flow after the handshake\n");
+        return 1;
+    }
+    printf("OK: scenario A: handshake completed after %d timeout round(s) "
+        "and data flows\n", rounds);
     return 0;
 }
 
@@ -142,6 +149,8 @@ static int scenarioB(void)
             "session (server sent fatal alert %d)\n", S.alertDesc);
         return 1;
     }
+    printf("OK: scenario B: the duplicate was ignored, the session still "
+        "carries data\n");
     return 0;
 }
 
